@@ -137,6 +137,10 @@ func tTag(c context, s []byte) (context, int) {
 			linkRel:    c.linkRel,
 		}
 		ret.element.attrSplit = false
+		if c.element.name == "" && len(c.element.names) == 0 {
+			// End of an end tag: what was recorded about its name ends with it.
+			ret.element = element{}
+		}
 		if specialElements[c.element.name] {
 			ret.state = stateSpecialElementBody
 		}
